@@ -1,20 +1,27 @@
 #!/usr/bin/env python3
-"""Translator: regenerates the *declarative* parts of the model from /repo's current sources.
+"""Translator: regenerates the *declarative* parts of the model from /repo's current tree.
 
-    gen_tables.py <repo> <verif-root>
+    gen_tables.py pre <repo> <verif-root>          before the harness is compiled
+    gen_tables.py <repo> <verif-root> <dump-file>  after `harness dump` ran
+
+Two sources, by robustness:
+  * what the *compiler* sees (`harness dump`, compiled against /repo): the restricted types and
+    their maxima, every From / TryFrom impl on the 18x18 grid of numeric types (autoref probes),
+    the values of the controller-number constants, the enum discriminants.  Independent of how
+    the source spells them (macros, hand-written impls, lists).
+  * what only the *source text* shows (regular expressions over comment-stripped text): the cfg
+    guards of the range assertion in `new`, Cargo features, serde attribute shapes, the constant
+    is_channel_mode_message_controller_number compares with, and the *names* of the
+    controller-number constants (documented names still mentioned in the source + every
+    `pub const X: ControllerNumber`).  A construct that is not recognised is recorded as unknown
+    (Generated/status.json or an explicit `..._known := false`), never guessed.
 
 Writes (only when the content changed, so that make/cargo caches stay valid):
-    coq/Generated/{NewtypeTables,CtrlConsts,EnumTables,SerdeShapes}.v   newtype definitions, conversion-macro invocations,
-                                      cfg guards of `new`, Cargo features, controller-number
-                                      constants, enum discriminants, serde attribute shapes,
-                                      the constant compared with in is_channel_mode_...
-    harness/src/generated/convs.rs    one conversion case per table entry (so that an impl added
-                                      to the crate is exercised without a hand edit)
-    harness/src/generated/consts.rs   the controller-number constants
+    coq/Generated/{NewtypeTables,CtrlConsts,EnumTables,SerdeShapes}.v, coq/Generated/status.json
+    harness/src/generated/consts.rs   (mode `pre`)
 
 Only tables are translated; macro bodies, match tables and state machines are hand-modelled and
-tied by the correspondence check.  Exit status 1 if a construct that must be present cannot be
-parsed (the orchestrator then reports the affected properties as no longer shown)."""
+tied by the correspondence check."""
 import os
 import re
 import sys
@@ -111,40 +118,6 @@ def parse_newtypes(srcs):
     return defs
 
 
-CONV_MACROS = {
-    "impl_from_newtype_to_newtype": "FromNN",
-    "impl_from_newtype_to_primitive": "FromNP",
-    "impl_from_primitive_to_newtype": "FromPN",
-    "impl_try_from_newtype_to_newtype": "TryNN",
-    "impl_try_from_primitive_to_newtype": "TryPN",
-    "impl_try_from_signed_primitive_to_newtype": "TrySPN",
-}
-
-
-def parse_convs(srcs):
-    convs = []
-    for f, s in srcs.items():
-        if f == "newtype_macros.rs":
-            continue
-        for m in re.finditer(r"\b(impl_(?:try_)?from_\w+)!\s*\(\s*([\w:]+)\s*,\s*([\w:]+)\s*\)", s):
-            mac, a, b = m.group(1), m.group(2), m.group(3)
-            if mac not in CONV_MACROS:
-                errors.append("unknown conversion macro %s in %s" % (mac, f))
-                continue
-            convs.append((CONV_MACROS[mac], a.split("::")[-1], b.split("::")[-1]))
-    # hand-written From/TryFrom impls between the numeric types would escape the table
-    types = {"U4", "U7", "U14", "Channel", "KeyNumber", "ControllerNumber"}
-    prims = {"u8", "u16", "u32", "u64", "u128", "usize", "i8", "i16", "i32", "i64", "i128", "isize"}
-    for f, s in srcs.items():
-        if f == "newtype_macros.rs":
-            continue
-        for m in re.finditer(r"\bimpl\s+(?:core::convert::)?(?:Try)?From\s*<\s*([\w:]+)\s*>\s*for\s+([\w:]+)", s):
-            a, b = m.group(1).split("::")[-1], m.group(2).split("::")[-1]
-            if (a in types and (b in types or b in prims)) or (b in types and a in prims):
-                errors.append("hand-written conversion impl From<%s> for %s in %s is not in the table" % (a, b, f))
-    return convs
-
-
 def parse_cfg(expr):
     """cfg predicate -> Coq cfgexpr term"""
     expr = expr.strip()
@@ -180,40 +153,57 @@ def parse_cfg(expr):
     return 'CFlag "?"'
 
 
+PANICKY = re.compile(r"\b(?:assert|assert_eq|assert_ne|panic|unreachable|unimplemented)!|\.expect\s*\(|\.unwrap\s*\(\s*\)")
+
+
 def parse_new_guards(srcs):
+    """cfg predicates under which `new` contains a panicking statement.
+    Returns (guards, unguarded, known).  Every `#[cfg(X)]`-attributed block or statement of the
+    body that contains a panicking macro contributes X; a panicking macro outside all of them
+    counts as unconditional; a body without any is not understood (known = False)."""
     s = srcs.get("newtype_macros.rs", "")
-    m = re.search(r"pub\s+fn\s+new\s*\(\s*value\s*:\s*\$repr\s*\)\s*->\s*\$name\s*\{", s)
+    m = re.search(r"pub\s+(?:const\s+)?fn\s+new\s*\([^)]*\)\s*->\s*[$\w]+\s*\{", s)
     if not m:
-        errors.append("cannot find `pub fn new` in newtype! macro")
-        return [], False
+        return [], False, False
     end = matching(s, m.end() - 1, "{", "}")
     body = s[m.end():end]
     guards = []
-    unguarded = False
-    # statements of the body: cfg-attributed blocks and plain statements
-    pos = 0
-    while pos < len(body):
-        mm = re.compile(r"\s*#\s*\[\s*cfg\s*\(").match(body, pos)
-        if mm:
-            pend = matching(body, mm.end() - 1, "(", ")")
-            cfg = body[mm.end():pend]
-            close = body.find("]", pend)
-            rest = body[close + 1:]
-            k = len(body) - len(rest)
-            b0 = body.find("{", k)
-            b1 = matching(body, b0, "{", "}")
-            blk = body[b0:b1 + 1]
-            if re.search(r"assert!\s*\(\s*\$name\s*::\s*is_valid\s*\(\s*value\s*\)", blk):
-                guards.append(parse_cfg(cfg))
-            pos = b1 + 1
+    covered = []     # (start, end) ranges of cfg-attributed items
+    for mm in re.finditer(r"#\s*\[\s*cfg\s*\(", body):
+        pend = matching(body, mm.end() - 1, "(", ")")
+        cfg = body[mm.end():pend]
+        close = body.find("]", pend)
+        k = close + 1
+        while k < len(body) and body[k].isspace():
+            k += 1
+        if k < len(body) and body[k] == "{":
+            e = matching(body, k, "{", "}")
         else:
-            # plain statement up to ';' or end
-            j = body.find(";", pos)
-            stmt = body[pos:] if j < 0 else body[pos:j + 1]
-            if re.search(r"assert!\s*\(\s*\$name\s*::\s*is_valid\s*\(\s*value\s*\)", stmt):
-                unguarded = True
-            pos = len(body) if j < 0 else j + 1
-    return guards, unguarded
+            # a statement: up to the first ';' outside brackets
+            depth = 0
+            e = k
+            while e < len(body):
+                c = body[e]
+                if c in "([{":
+                    depth += 1
+                elif c in ")]}":
+                    depth -= 1
+                    if depth < 0:
+                        break
+                elif c == ";" and depth == 0:
+                    break
+                e += 1
+        item = body[k:e + 1]
+        covered.append((mm.start(), e + 1))
+        if PANICKY.search(item):
+            guards.append(parse_cfg(cfg))
+    unguarded = False
+    any_panicky = False
+    for pm in PANICKY.finditer(body):
+        any_panicky = True
+        if not any(a <= pm.start() < b for a, b in covered):
+            unguarded = True
+    return guards, unguarded, any_panicky
 
 
 def parse_features(repo):
@@ -238,17 +228,35 @@ def parse_features(repo):
     return feats
 
 
-def parse_consts(srcs):
-    """all `pub const NAME: ControllerNumber = <init>;` -- value known only for literal initialisers"""
+DOCUMENTED_CONSTS = """BANK_SELECT MODULATION_WHEEL BREATH_CONTROLLER FOOT_CONTROLLER PORTAMENTO_TIME DATA_ENTRY_MSB
+CHANNEL_VOLUME BALANCE PAN EXPRESSION_CONTROLLER EFFECT_CONTROL_1 EFFECT_CONTROL_2 GENERAL_PURPOSE_CONTROLLER_1
+GENERAL_PURPOSE_CONTROLLER_2 GENERAL_PURPOSE_CONTROLLER_3 GENERAL_PURPOSE_CONTROLLER_4 BANK_SELECT_LSB
+MODULATION_WHEEL_LSB BREATH_CONTROLLER_LSB FOOT_CONTROLLER_LSB PORTAMENTO_TIME_LSB DATA_ENTRY_MSB_LSB
+CHANNEL_VOLUME_LSB BALANCE_LSB PAN_LSB EXPRESSION_CONTROLLER_LSB EFFECT_CONTROL_1_LSB EFFECT_CONTROL_2_LSB
+GENERAL_PURPOSE_CONTROLLER_1_LSB GENERAL_PURPOSE_CONTROLLER_2_LSB GENERAL_PURPOSE_CONTROLLER_3_LSB
+GENERAL_PURPOSE_CONTROLLER_4_LSB""".split()
+
+
+def parse_const_names(srcs):
+    """names of the controller_numbers::* constants: every `pub const X: ControllerNumber` of the
+    source plus every documented 14-bit name (above) that the source still mentions as a word --
+    however it declares it.  Their *values* come from the compiled implementation."""
     s = srcs.get("controller_number_mod.rs", "")
-    consts = []
-    for m in re.finditer(r"pub\s+const\s+(\w+)\s*:\s*ControllerNumber\s*=\s*([^;]*);", s):
-        init = m.group(2).strip()
-        lit = re.fullmatch(r"ControllerNumber\s*\(\s*(0x[0-9A-Fa-f]+|\d+)\s*\)", init)
-        consts.append((m.group(1), int(lit.group(1), 0) if lit else None))
-    if not consts:
+    names = [m.group(1) for m in re.finditer(r"pub\s+const\s+(\w+)\s*:\s*ControllerNumber\b", s)]
+    # entries of a declaring macro invocation: NAME = <literal>
+    i = s.find("pub mod controller_numbers")
+    if i >= 0:
+        j = s.find("{", i)
+        mod_body = s[j:matching(s, j, "{", "}")]
+        for m in re.finditer(r"\b([A-Z][A-Z0-9_]+)\s*(?::\s*ControllerNumber\s*)?=\s*(?:ControllerNumber\s*\(\s*)?(?:0x[0-9A-Fa-f]+|\d+)", mod_body):
+            if m.group(1) not in names:
+                names.append(m.group(1))
+    for n in DOCUMENTED_CONSTS:
+        if n not in names and re.search(r"\b%s\b" % n, s):
+            names.append(n)
+    if not names:
         errors.append("no controller number constants found")
-    return consts
+    return names
 
 
 def parse_channel_mode_const(srcs, consts):
@@ -365,24 +373,57 @@ def write_if_changed(path, content):
 PRIM_RS = ["u8", "u16", "u32", "u64", "u128", "usize", "i8", "i16", "i32", "i64", "i128", "isize"]
 
 
+def write_harness_consts(root, names):
+    c = ["// GENERATED by translator/gen_tables.py -- do not edit.",
+         "pub fn consts() -> Vec<(&'static str, i64)> {", "    vec!["]
+    for a in names:
+        c.append('        ("%s", helgoboss_midi::controller_numbers::%s.get() as i64),' % (a, a))
+    c.append("    ]")
+    c.append("}")
+    write_if_changed(os.path.join(root, "harness", "src", "generated", "consts.rs"), "\n".join(c) + "\n")
+
+
+def read_dump(path):
+    d = {"NT": [], "CONV": [], "CONST": [], "SMT": [], "TCT": []}
+    for line in open(path):
+        f = line.split()
+        if f and f[0] in d:
+            d[f[0]].append(f[1:])
+    return d
+
+
 def main():
-    repo, root = sys.argv[1], sys.argv[2]
+    if sys.argv[1] == "pre":
+        repo, root = sys.argv[2], sys.argv[3]
+        srcs = read_sources(repo)
+        CURRENT[0] = "CtrlConsts"
+        write_harness_consts(root, parse_const_names(srcs))
+        for t, msg in errors:
+            print("translator[%s]: %s" % (t, msg))
+        return 0
+    repo, root, dump_path = sys.argv[1], sys.argv[2], sys.argv[3]
     srcs = read_sources(repo)
+    dump = read_dump(dump_path)
     CURRENT[0] = "NewtypeTables"
-    defs = parse_newtypes(srcs)
-    convs = parse_convs(srcs)
-    guards, unguarded = parse_new_guards(srcs)
+    defs = [(a, b, int(c)) for a, b, c in dump["NT"]]
+    convs = [("CFrom" if k == "0" else "CTry", a, b) for k, a, b in dump["CONV"]]
+    if not defs or not convs:
+        errors.append("the compiled probe reported no restricted types / conversions")
+    guards, unguarded, guards_known = parse_new_guards(srcs)
     feats = parse_features(repo)
     CURRENT[0] = "CtrlConsts"
-    consts = parse_consts(srcs)
+    names = parse_const_names(srcs)
+    consts = [(a, int(b)) for a, b in dump["CONST"]]
+    if [a for a, _ in consts] != names:
+        errors.append("the compiled harness lists other constants than the source (stale build?)")
     cm = parse_channel_mode_const(srcs, consts)
     CURRENT[0] = "EnumTables"
-    smt = parse_enum(srcs, "short_message.rs", "ShortMessageType")
-    tct = parse_enum(srcs, "short_message.rs", "TimeCodeType")
+    smt = [(a, int(b)) for a, b in dump["SMT"]]
+    tct = [(a, int(b)) for a, b in dump["TCT"]]
     CURRENT[0] = "SerdeShapes"
     shapes = parse_serde_shapes(srcs)
 
-    hdr = ["(* GENERATED by translator/gen_tables.py from /repo's current sources -- do not edit. *)",
+    hdr = ["(* GENERATED by translator/gen_tables.py from /repo's current tree -- do not edit. *)",
            "From Coq Require Import NArith List String.",
            "From Verif Require Import Base.Cfg.",
            "Import ListNotations.",
@@ -393,17 +434,19 @@ def main():
     changed = False
 
     v = list(hdr)
-    v.append("(* newtype! invocations: name, repr, max *)")
+    v.append("(* the restricted types as compiled: name, repr, MAX *)")
     v.append("Definition newtype_defs : list (string * string * N) :=\n  [%s]." % ";\n   ".join(
         "(%s, %s, %d)" % (coq_str(a), coq_str(b), c) for a, b, c in defs))
     v.append("")
-    v.append("(* conversion macro invocations: kind, source, target *)")
+    v.append("(* every From / TryFrom impl between the numeric types that the compiler sees: kind, source, target *)")
     v.append("Definition conv_table : list (conv_kind * string * string) :=\n  [%s]." % ";\n   ".join(
         "(%s, %s, %s)" % (k, coq_str(a), coq_str(b)) for k, a, b in convs))
     v.append("")
-    v.append("(* cfg predicates guarding the range assertion inside `new`; an unguarded assertion counts as always on *)")
+    v.append("(* cfg predicates under which `new` contains its range assertion; an unguarded assertion counts as always on *)")
     v.append("Definition new_cfg_guards : list cfgexpr :=\n  [%s]." % "; ".join(
         ["(%s)" % g for g in guards] + (["CTrue"] if unguarded else [])))
+    v.append("(* false: the body of `new` has no panicking statement the translator recognises *)")
+    v.append("Definition new_guards_known : bool := %s." % ("true" if guards_known else "false"))
     v.append("")
     v.append("(* Cargo features (incl. optional dependencies) and the default set *)")
     v.append("Definition cargo_features : list string := [%s]." % "; ".join(coq_str(k) for k in feats if k != "default"))
@@ -412,16 +455,15 @@ def main():
     changed |= write_if_changed(os.path.join(gen, "NewtypeTables.v"), "\n".join(v))
 
     v = list(hdr)
-    v.append("(* controller_numbers::* *)")
+    v.append("(* controller_numbers::* with the values the compiled crate gives them *)")
     v.append("Definition ctrl_consts : list (string * N) :=\n  [%s]." % ";\n   ".join(
-        "(%s, %d)" % (coq_str(a), b) for a, b in consts if b is not None))
+        "(%s, %d)" % (coq_str(a), b) for a, b in consts))
     v.append("")
-    v.append("(* every constant's name, in declaration order (the harness observes them in this order) *)")
+    v.append("(* every constant's name, in the order the harness observes them *)")
     v.append("Definition ctrl_const_names : list string :=\n  [%s]." % ";\n   ".join(coq_str(a) for a, _ in consts))
     v.append("")
-    v.append("(* constants whose initialiser is not a literal: their values are tied by the correspondence only *)")
-    v.append("Definition ctrl_const_unparsed : list string := [%s]." % "; ".join(
-        coq_str(a) for a, b in consts if b is None))
+    v.append("(* constants without a value in the table (none: values come from the compiled crate) *)")
+    v.append("Definition ctrl_const_unparsed : list string := [].")
     v.append("")
     v.append("(* the constant is_channel_mode_message_controller_number compares with (>=) *)")
     v.append("Definition channel_mode_threshold_gen : option N := %s." % ("Some %d" % cm if cm is not None else "None"))
@@ -429,6 +471,7 @@ def main():
     changed |= write_if_changed(os.path.join(gen, "CtrlConsts.v"), "\n".join(v))
 
     v = list(hdr)
+    v.append("(* discriminants as compiled: every u8 the enum's TryFrom accepts, with the variant's u8::from *)")
     v.append("Definition smt_table_gen : list (string * N) :=\n  [%s]." % ";\n   ".join(
         "(%s, %d)" % (coq_str(a), b) for a, b in smt))
     v.append("Definition tct_table_gen : list (string * N) := [%s]." % "; ".join(
@@ -443,37 +486,6 @@ def main():
     v.append("")
     changed |= write_if_changed(os.path.join(gen, "SerdeShapes.v"), "\n".join(v))
 
-    # harness: conversion cases
-    r = []
-    r.append("// GENERATED by translator/gen_tables.py -- do not edit.")
-    r.append("// kind: 0 From newtype->newtype, 1 From newtype->primitive, 2 From primitive->newtype,")
-    r.append("//       3 TryFrom newtype->newtype, 4 TryFrom primitive->newtype")
-    kinds = {"FromNN": 0, "FromNP": 1, "FromPN": 2, "TryNN": 3, "TryPN": 4, "TrySPN": 5}
-    r.append("pub fn run_conv(idx: i64, x: (bool, u128)) -> Vec<i64> {")
-    r.append("    match idx {")
-    for i, (k, a, b) in enumerate(convs):
-        r.append("        %d => conv_%s!(%s, %s, x)," % (i, k, a, b))
-    r.append("        _ => vec![-97],")
-    r.append("    }")
-    r.append("}")
-    r.append("pub const CONVS: &[(i64, &str, &str)] = &[")
-    for i, (k, a, b) in enumerate(convs):
-        r.append('    (%d, "%s", "%s"),' % (kinds[k], a, b))
-    r.append("];")
-    r.append("pub const NEWTYPES: &[(&str, &str, i64)] = &[")
-    for a, b, c in defs:
-        r.append('    ("%s", "%s", %d),' % (a, b, c))
-    r.append("];")
-    write_if_changed(os.path.join(root, "harness", "src", "generated", "convs.rs"), "\n".join(r) + "\n")
-
-    c = ["// GENERATED by translator/gen_tables.py -- do not edit.",
-         "pub fn consts() -> Vec<(&'static str, i64)> {", "    vec!["]
-    for a, _ in consts:
-        c.append('        ("%s", helgoboss_midi::controller_numbers::%s.get() as i64),' % (a, a))
-    c.append("    ]")
-    c.append("}")
-    write_if_changed(os.path.join(root, "harness", "src", "generated", "consts.rs"), "\n".join(c) + "\n")
-
     import json
     status = {}
     for t, msg in errors:
@@ -482,8 +494,9 @@ def main():
         json.dump(status, fh, indent=1)
     for t, msg in errors:
         print("translator[%s]: %s" % (t, msg))
-    print("translator: %d newtypes, %d conversions, %d guards%s, %d consts, %d+%d enum variants, %d serde shapes%s"
-          % (len(defs), len(convs), len(guards), " (+unguarded)" if unguarded else "", len(consts), len(smt), len(tct),
+    print("translator: %d newtypes, %d conversions, %d guards%s%s, %d consts, %d+%d enum variants, %d serde shapes%s"
+          % (len(defs), len(convs), len(guards), " (+unguarded)" if unguarded else "",
+             "" if guards_known else " (not understood)", len(consts), len(smt), len(tct),
              len(shapes), " [changed]" if changed else ""))
     return 0   # per-table problems are reported through Generated/status.json
 
